@@ -74,31 +74,94 @@ def cap(code, value=b''):
     return bytes([code, len(value)]) + value
 
 
-def peer_open_body(asn=65001, hold=180, router_id=b'\x05\x06\x07\x08', families=((1, 1),), asn4=True, addpath=None,
-                   extended_message=False, nexthop=(), route_refresh=False, extra_caps=b'', one_param_per_cap=True):
-    """OPEN body (after the 19-byte header).  addpath: {(afi,safi): 1|2|3}.  asn may exceed 65535 (AS_TRANS in the field)."""
-    caps = []
-    for afi, safi in families:
-        caps.append(cap(1, struct.pack('!HBB', afi, 0, safi)))
-    if asn4:
-        caps.append(cap(65, struct.pack('!L', asn)))
-    if addpath:
-        caps.append(cap(69, b''.join(struct.pack('!HBB', a, s, m) for (a, s), m in addpath.items())))
-    if extended_message:
-        caps.append(cap(6))
-    if nexthop:
-        caps.append(cap(5, b''.join(struct.pack('!HHH', a, s, n) for a, s, n in nexthop)))
-    if route_refresh:
-        caps.append(cap(2))
-    if extra_caps:
-        caps.append(extra_caps)
-    if one_param_per_cap:
-        params = b''.join(bytes([2, len(c)]) + c for c in caps)
+def _be(x, n):
+    """Big-endian byte items (list of n) of x: a plain int, a symbolic int (sx SInt), or a sequence of n byte items
+    (bytes, list, SBytes) each of which may itself be symbolic."""
+    if isinstance(x, int):
+        return list(int(x).to_bytes(n, 'big'))
+    from sx.core import SInt, SBytes, int_to_items
+    if isinstance(x, SInt):  # fresh byte variables tied to x by one linear constraint (no div/mod terms)
+        return int_to_items(x, n)
+    if isinstance(x, SBytes):
+        items = list(x.items)
     else:
-        allc = b''.join(caps)
-        params = bytes([2, len(allc)]) + allc if allc else b''
-    field_as = asn if asn <= 65535 else 23456
-    return bytes([4]) + struct.pack('!HH', field_as, hold) + router_id + bytes([len(params)]) + params
+        items = list(x)
+    if len(items) != n:
+        raise ValueError('peer_open_body: %d byte items expected, got %d' % (n, len(items)))
+    return items
+
+
+def _finish(items):
+    """bytes when every item is a plain int (concrete mode, and every existing caller), sx SBytes otherwise."""
+    if all(type(i) is int for i in items):
+        return bytes(items)
+    from sx.core import SBytes
+    return SBytes(items)
+
+
+def peer_open_body(asn=65001, hold=180, router_id=b'\x05\x06\x07\x08', families=((1, 1),), asn4=True, addpath=None,
+                   extended_message=False, nexthop=(), route_refresh=False, extra_caps=b'', one_param_per_cap=True,
+                   as_field=None, version=4, enhanced_refresh=False, order=None, duplicate=(), layout=None, raw_items=False):
+    """OPEN body (after the 19-byte header).  addpath: {(afi,safi): 1|2|3}.  asn may exceed 65535 (AS_TRANS in the field).
+
+    Every VALUE (asn, as_field, hold, router_id, version, the ADD-PATH modes) may be a plain int, a symbolic int or a
+    sequence of byte items; the STRUCTURE (which capabilities, which families, their order) is concrete.  The result
+    is `bytes` when everything is concrete and an sx `SBytes` otherwise.
+      as_field   the 2-byte My Autonomous System field; default: asn if it fits, else AS_TRANS (asn must be plain then)
+      order      permutation of the capability list (indices into the default order MP.., ASN4, ADD-PATH, EXT-MSG,
+                 EXT-NH, RR, ERR, extra)
+      duplicate  indices (default order) of capabilities sent twice (the copy is appended at the end)
+      layout     'per-cap' one optional parameter per capability (default), 'single' all in one parameter,
+                 'extended' RFC 9072 format with one parameter per capability, 'extended-single'
+    """
+    caps = []  # (code, value items)
+    for afi, safi in families:
+        caps.append((1, _be(afi, 2) + [0] + _be(safi, 1)))
+    if asn4:
+        caps.append((65, _be(asn, 4)))
+    if addpath:
+        v = []
+        for (a, s), m in addpath.items():
+            v += _be(a, 2) + _be(s, 1) + _be(m, 1)
+        caps.append((69, v))
+    if extended_message:
+        caps.append((6, []))
+    if nexthop:
+        v = []
+        for a, s, n in nexthop:
+            v += _be(a, 2) + _be(s, 2) + _be(n, 2)
+        caps.append((5, v))
+    if route_refresh:
+        caps.append((2, []))
+    if enhanced_refresh:
+        caps.append((70, []))
+    tlvs = [[code, len(v)] + v for code, v in caps]
+    if extra_caps:
+        tlvs.append(list(extra_caps))
+    base = list(tlvs)
+    if order is not None:
+        tlvs = [base[i] for i in order]
+    for i in duplicate:
+        tlvs.append(base[i])
+    if layout is None:
+        layout = 'per-cap' if one_param_per_cap else 'single'
+    extended = layout.startswith('extended')
+    plen = (lambda k: [2] + _be(k, 2)) if extended else (lambda k: [2, k])
+    if layout in ('per-cap', 'extended'):
+        params = []
+        for t in tlvs:
+            params += plen(len(t)) + t
+    else:
+        allc = [i for t in tlvs for i in t]
+        params = plen(len(allc)) + allc if allc else []
+    if as_field is None:
+        as_field = asn if asn <= 65535 else 23456
+    head = _be(version, 1) + _be(as_field, 2) + _be(hold, 2) + _be(router_id, 4)
+    if extended:
+        items = head + [255, 255] + _be(len(params), 2) + params
+    else:
+        items = head + [len(params)] + params
+    return items if raw_items else _finish(items)
 
 
 def negotiated_for(neighbor, direction, peer_body):
